@@ -143,6 +143,16 @@ CHECKS["C03"] = dict(
     note="PYTHONHASHSEED values are sampled. sha256 and the byte-level content of each rule hash are not modelled (contents are abstract numbers); per-rule hashes are compared between processes instead.",
     ref="6/C03")
 
+CHECKS["C01"] = dict(
+    technique="Coq proof (equal digest input => equal un-memoized result for arbitrary body semantics; a store keyed by (function, version) never returns a stale result over any history of editions, by invariant; refutations for unhashed defaults and variable-width concatenation) + source facts + differential runs: edit histories delivered cross-process and in-process vs plain execution, version verdicts vs model",
+    text="Theorems over Version/Rules.v + Version/Stale.v: for ANY semantics of bodies that depends on the code, the defaults and the values of referenced names, and ANY two editions: same reference structure and same digest input (rule contents in key order) imply the same result; with arbitrary structure the same from the keyed input (PARTIAL: the implementation's digest omits the keys); "
+         "for any version function under which equal versions imply equal behaviour and any history of editions and calls against a persistent store, the memoizing evaluator (look-ups at every memento function, nested results stored) returns exactly what un-memoized evaluation of the current edition returns (invariant over the store); "
+         "fixed-width concatenation is injective; refutations: defaults not hashed, variable-width rule hashes. Source facts: defaults hashed, explicit versions hashed to the common width. "
+         "Implementation: generated programs x edit histories (bodies, constants incl. swapped constants, defaults, keyword-only defaults, set / string-set / tuple constants, nested code, call edges, variable values, explicit versions) delivered to fresh interpreters against one persistent store and inside one interpreter (reload / exec / setattr); "
+         "every call compared with plain undecorated execution of the current edition (or UndeclaredDependencyError); every pair of editions: implementation's version-changed verdict = model's.",
+    note="Body semantics is abstract in the model (any function of code, defaults and referenced values); sha256 truncation is treated as injective; symbols of the model are invocations (programs numbered topologically = recursion terminates). Histories are sampled.",
+    ref="6/C01")
+
 NOT_YET = {}
 
 
